@@ -189,7 +189,7 @@ class View:
 class Table:
     """Tabular data with an index."""
 
-    __slots__ = ('_data', '_columns', '_indexes', '_lohis')
+    __slots__ = ('_data', '_columns', '_indexes', '_lohis', '_edits', '_seen')
     #Potentially overkill, however, by having our own "simple" table implementation we can provide
     #several useful pieces of functionality out of the box. Additionally, when working with
     #very large experiments pandas can become quite slow while Table works acceptably.
@@ -198,6 +198,8 @@ class Table:
         self._columns = tuple(columns) or tuple(data)
         self._lohis   = None
         self._indexes = ()
+        self._edits   = [0] #shared with our copies (they share our data) so all notice when one of them changes the data
+        self._seen    = 0
 
         data_is_view            = isinstance(data,View)
         data_is_mapping_of_cols = isinstance(data,collections.abc.Mapping)
@@ -233,6 +235,8 @@ class Table:
         if data_is_empty:
             return self
 
+        if self._seen != self._edits[0]: self._edited_elsewhere()
+
         if data_is_sequence_of_dicts:
             data = {k:[d.get(k,Missing) for d in data] for k in set().union(*(d.keys() for d in data))}
             data_is_mapping_of_cols = True
@@ -266,12 +270,14 @@ class Table:
                 self._data[hdr].extend(col)
 
         if self._lohis: self._lohis = {}
+        self._edited()
 
         return self
 
     def index(self, *indx) -> 'Table':
         if not indx: return self
         if not self._data: return self
+        if self._seen != self._edits[0]: self._edited_elsewhere()
         indx = list(dict.fromkeys(col for col in indx if col in self._columns)) #a column named twice is sorted on once
         if self._indexes == tuple(indx): return self
 
@@ -289,6 +295,7 @@ class Table:
 
         self._indexes = tuple(indx)
         self._lohis = self._calc_lohis()
+        self._edited()
 
         return self
 
@@ -308,6 +315,7 @@ class Table:
         if not row_pred and not kwargs:
             return self
 
+        if self._seen != self._edits[0]: self._edited_elsewhere()
         if not self._lohis: self._sort_if_unsorted()
 
         if row_pred:
@@ -332,6 +340,7 @@ class Table:
             return Table(View(self._data,selection), self._columns, self._indexes)
 
     def groupby(self, level:int, select:Union[Literal['count'],str,Sequence[str]]=None) -> Iterable[Tuple[Tuple,Any]]:
+        if self._seen != self._edits[0]: self._edited_elsewhere()
         if not self._lohis: self._sort_if_unsorted()
         self._lohis = self._lohis or self._calc_lohis()
         grp_cols = [self._data[hdr] for hdr in self._indexes[:level]]
@@ -358,6 +367,8 @@ class Table:
     def copy(self) -> 'Table':
         t = Table(self._data, tuple(self._columns), tuple(self._indexes))
         t._lohis = self._lohis
+        t._edits = self._edits
+        t._seen  = self._seen
         return t
 
     def to_pandas(self):
@@ -414,6 +425,16 @@ class Table:
     def _ipython_display_(self):
         #pretty print in jupyter notebook (https://ipython.readthedocs.io/en/stable/config/integrating.html)
         print(str(self))
+
+    def _edited(self):
+        self._edits[0] += 1
+        self._seen = self._edits[0]
+
+    def _edited_elsewhere(self):
+        #a copy (it shares our data) inserted rows or sorted the data on its own index since we last looked
+        self._seen = self._edits[0]
+        if self._lohis: self._lohis = {}
+        if not isinstance(self._data,View): self._columns += tuple(sorted(self._data.keys()-set(self._columns)))
 
     def _sort_if_unsorted(self):
         #rows can be inserted into an indexed table out of index order. Checking here, on the first
